@@ -3,6 +3,7 @@ import DendroModel.Theory.C08Base
 import DendroModel.Theory.C08Prune
 import DendroModel.Theory.C08Extract
 import DendroModel.Theory.C08Spec
+import DendroModel.Theory.C08Len
 /-! C08 — property theorems.  Every `theorem` directly in `namespace DendroModel.C08` of this file is an obligation.
 They are statements about the definitions `drv_c08` executes (`Model/C08.lean`): the mechanisms as the code runs them
 (`pruneTaxa` = strike pass + leaf-removal loop + `T.sup`; `filterLeaves`; `retainTaxa`; `extractTree` = memo-driven fold over
@@ -154,6 +155,19 @@ theorem single_survivor (keep : Acc) (t lf : T)
     ∃ a, pathAcc keep t = some a ∧ restrict keep true t = some (lf.withLen a) :=
   single_aux keep t lf h1
 
+/-- (c) path lengths between surviving leaves are unchanged, with and without suppression: for any two leaf predicates `p`, `q`
+    that only select kept leaves (e.g. "is the leaf with id a" for a kept leaf a), the length of the path between the
+    leaves they select is the same in the induced subtree as in the original tree (lengths read in ℚ, `None` = 0) -/
+theorem restrict_pathlen (keep p q : Acc) (hp : ∀ i x, p i x = true → keep i x = true)
+    (hq : ∀ i x, q i x = true → keep i x = true) (sup : Bool) (t r : T) (hw : LensWF t)
+    (hr : restrict keep sup t = some r) : dist p q r = dist p q t :=
+  dist_restrict keep p q hp hq sup t hw r hr
+
+/-- (c)/(f) so is the length from above the seed's own edge down to any kept leaf -/
+theorem restrict_rootlen (keep p : Acc) (hp : ∀ i x, p i x = true → keep i x = true) (sup : Bool) (t r : T) (hw : LensWF t)
+    (hr : restrict keep sup t = some r) : (reach p r).map (· + oval r.len) = (reach p t).map (· + oval t.len) :=
+  ((reach_restrict keep p hp sup t hw).1 r hr).1
+
 /-! ### the hypotheses are satisfiable, the statements are not vacuous -/
 def demo : T :=
   .node 0 none (some ⟨9, 1⟩) none
@@ -163,6 +177,9 @@ def demo : T :=
 
 example : InnerNoTaxon demo := by simp [demo, InnerNoTaxon, InnerNoTaxonL]
 example : (ids demo).Nodup := by decide
+example : LensWF demo := by simp [demo, LensWF, LensWFL, OWF]
+example : dist (fun i _ => i == 3) (fun i _ => i == 5) demo = some 17 := by
+  simp [demo, dist, distL, reach, reachL, oval, fval, T.len]; norm_num
 example : NoneRej (keepTaxa (fun k => k == 1 || k == 2)) := fun _ => rfl
 example : ∀ lf ∈ demo.leaves, lf.taxon ≠ none := by simp [demo, T.leaves, T.leavesL, T.taxon]
 example : (pruneTaxa (fun k => !(k == 1 || k == 2)) true false true demo).map T.render = some "(0 - 9 (3 1 5) (5 2 12))" := by decide
